@@ -10,14 +10,25 @@ import (
 )
 
 // runPaths executes fd with SX and reports the first unsupported construct.
-func (c *Ctx) runPaths(fd *ast.FuncDecl) ([]*Path, string) {
-	paths := c.NewSX().Run(fd)
+func (c *Ctx) runPaths(fd *ast.FuncDecl) ([]*Path, string) { return c.runPathsWith(fd, nil) }
+
+// runPathsWith: as runPaths, with the executor configured by the rule (what stays opaque, what is followed).
+func (c *Ctx) runPathsWith(fd *ast.FuncDecl, conf func(*SX)) ([]*Path, string) {
+	x := c.NewSX()
+	if conf != nil {
+		conf(x)
+	}
+	paths := x.Run(fd)
 	for _, p := range paths {
 		if p.Why != "" {
 			return paths, p.Why
 		}
 	}
-	return c.view(fd).normalizePaths(paths), ""
+	v := c.view(fd)
+	if c.quietHeap(fd, paths) {
+		paths = v.collapseEpochs(paths)
+	}
+	return v.normalizeMapKeyLoads(v.normalizePaths(paths)), ""
 }
 
 // intHook builds a term hook for folding: integer parameters by object, the receiver's count as n, cap as n+3.
